@@ -575,3 +575,19 @@ pub mod split_trace {
         position.path().iter().by_vals().collect()
     }
 }
+
+// H11 — Rollback deltas (`rollback/reverse_delta_worker.rs`, `ReverseDeltaBuilder`) and the bookkeeping of
+// `Rollback` (`InMemory`, `commit`, `commit_nonblocking`, `truncate`, the sync controller).
+//
+// The priors the real delta builder computed are read off a `FinishedSession`
+// (`FinishedSession::verif_rollback_delta`) or an `Overlay` (`overlay_rollback_delta`); the log a
+// live store holds through `Nomt::verif_rollback_view`; `Nomt::verif_with_rollback_lock` holds one of
+// the two locks `Rollback::commit_nonblocking` tries; `RollbackSim` drives the real `Rollback` alone.
+
+pub use crate::rollback::verif_delta::{LogView, Priors, RollbackSim};
+
+/// The rollback delta stored in an overlay (built when the overlay was created, against its
+/// ancestors), ascending by key. `None`: rollback disabled.
+pub fn overlay_rollback_delta(o: &Overlay) -> Option<Priors> {
+    o.rollback_delta().map(crate::rollback::verif_delta::priors_of)
+}
